@@ -14,4 +14,8 @@ def build(repo, tier, seed):
     b["functions"].append({"name": "labrea.types:Cacheable.fingerprint", "sha256_16": repo.sha(repo.module("types"), repo.module("types").classes["Cacheable"].methods["fingerprint"])})
     b["assumptions"].append("hash-seed independence: the engine gives iteration over a key set an arbitrary order (quantified), the only ordered consumer is sorted(); "
                             "that CPython's json/sorted are themselves seed-independent is assumed (dep.json, dep.sorted)")
+    from . import frame_state
+    b["syntactic"] += frame_state.obligations(repo)
+    b["assumptions"].append("no hidden state: outside constructors and the declared mutators (Overloaded.register/__setstate__, Dataset.set_dispatch/set_cache/enable_effects/disable_effects, "
+                            "MemoryCache.set) no method of a class reaching the labrea ABCs stores into its receiver, its class or a module global (AST frame, group <Class>:frame)")
     return b
